@@ -95,7 +95,8 @@ def shards(tier):
         k = {1: 1, 2: 1, 3: 2, 4: 8, 5: 16, 6: 64}[n]
         for i in range(k):
             out.append({"kind": "tree", "n": n, "slice": [i, k], "thin": tier == "quick" and n == 5})
-    out += [{"kind": "value"}, {"kind": "flags"}, {"kind": "bigtable"}, {"kind": "holes"}, {"kind": "free"}, {"kind": "competing"}, {"kind": "headers"}, {"kind": "chain"}, {"kind": "high"}]
+    out += [{"kind": "value"}, {"kind": "flags"}, {"kind": "bigtable"}, {"kind": "holes"}, {"kind": "many"}, {"kind": "coincide"},
+            {"kind": "free"}, {"kind": "competing"}, {"kind": "headers"}, {"kind": "chain"}, {"kind": "high"}]
     return out
 
 
@@ -131,6 +132,17 @@ def run_shard(shard, ctx):
                 for pos in (1, 2, 3):
                     for order in ("fwd", "rev"):
                         run_case({"kind": "bigtable", "forest": fi, "ntables": nt, "pos": pos, "order": order}, ctx)
+    elif kind == "many":
+        # more object-table entries than fit one 4 KiB block (227): 226..300 key tables + file objects behind them
+        for nt in (226, 227, 228, 240, 300):
+            for holes in (0, 1):
+                run_case({"kind": "many", "ntables": nt, "holes": holes}, ctx)
+    elif kind == "coincide":
+        # numerically equal values stored under different types in one file (1 / 1.0 / True / unsigned 1, 0 / 0.0 / -0.0 / False)
+        for rot in range(9):
+            for rev in (False, True):
+                for nt in (1, 2):
+                    run_case({"kind": "coincide", "rot": rot, "rev": rev, "ntables": nt}, ctx)
     elif kind == "holes":
         # unallocated slots in front of and between the allocated object-table entries
         for fi in range(0, len(forests(4)), 2):
@@ -217,6 +229,25 @@ def run_case(case, ctx):
         if case.get("flags"):
             kw = dict(extra_flags=case["flags"])
             nontrivial = True
+        ctx.outcome("value")
+    elif kind == "many":
+        n = case["ntables"]
+        leaves = {f"_device-{i:04d}_": (LEAF_CYCLE[i % 6], VALUES[LEAF_CYCLE[i % 6]][i % 2]) for i in range(n + 7)}
+        leaves["blob"] = (B.T_ARR, b"\x33" * 0x900)
+        leaves["text"] = (B.T_STR, "t" * 0x480)
+        tree = {"configuration": (B.T_NODE, {"devices": (B.T_NODE, leaves), "tail": (B.T_INT, 5)})}
+        kw = dict(ntables=n, holes=case["holes"], fileobj_base=0x400000)
+        nontrivial = True
+        ctx.outcome("tree")
+    elif kind == "coincide":
+        items = [("i1", (B.T_INT, 1)), ("b1", (B.T_BOOL, True)), ("d1", (B.T_DBL, 1.0)), ("u1", (B.T_UINT, 1)), ("i0", (B.T_INT, 0)),
+                 ("b0", (B.T_BOOL, False)), ("d0", (B.T_DBL, 0.0)), ("dn", (B.T_DBL, -0.0)), ("u0", (B.T_UINT, 0))]
+        items = items[case["rot"]:] + items[:case["rot"]]
+        if case["rev"]:
+            items = items[::-1]
+        tree = {"configuration": (B.T_NODE, dict(items))}
+        kw = dict(ntables=case["ntables"])
+        nontrivial = True
         ctx.outcome("value")
     elif kind == "bigtable":
         tree = tree_from_shape(forests(5)[case["forest"]], case["forest"])
